@@ -155,7 +155,7 @@ PROPS = {
         assumptions=["HTTP: the parser is net/http (library code); its malformed-input behaviour is not modelled"],
     ),
     "C02": dict(
-        proof_modules=["KsVerif.Proofs.C02", "KsVerif.Proofs.C02Amqp"],
+        proof_modules=["KsVerif.Proofs.C02", "KsVerif.Proofs.C02Redis", "KsVerif.Proofs.C02Amqp"],
         families=["cost.redis", "cost.amqp", "cost.kafka", "cost.http", "redis.raw", "amqp.raw"],
         rule="cost.<proto>: for each dissector, well-formed halves in which one length / count / size field (RESP *N and "
              "$N; AMQP frame, long-string, table, array, byte-array and body sizes; Kafka message size, client-id and "
